@@ -5,11 +5,15 @@ use std::collections::BTreeMap;
 
 mod c01;
 mod c02;
+mod c04;
+mod c03;
+mod c05;
 mod c07;
 mod c10;
 mod c11;
 mod c12;
 mod c14;
+mod c16;
 mod c17;
 mod c18;
 mod c19;
@@ -27,6 +31,7 @@ mod c30;
 mod c31;
 mod c32;
 mod c33;
+mod c34;
 mod c35;
 mod c37;
 mod c38;
@@ -37,16 +42,22 @@ mod c43;
 mod c45;
 mod c46;
 mod c47;
+mod c49;
+mod c50;
 
 pub fn run(item: &str, repo: &str, out: &str) -> Result<String, String> {
     let handlers: &[fn(&str, &str, &str) -> Option<Result<String, String>>] = &[
         c01::run,
         c02::run,
+        c04::run,
+        c03::run,
+        c05::run,
         c07::run,
         c10::run,
         c11::run,
         c12::run,
         c14::run,
+        c16::run,
         c17::run,
         c18::run,
         c19::run,
@@ -64,6 +75,7 @@ pub fn run(item: &str, repo: &str, out: &str) -> Result<String, String> {
         c31::run,
         c32::run,
         c33::run,
+        c34::run,
         c35::run,
         c37::run,
         c38::run,
@@ -74,6 +86,8 @@ pub fn run(item: &str, repo: &str, out: &str) -> Result<String, String> {
         c45::run,
         c46::run,
         c47::run,
+        c49::run,
+        c50::run,
     ];
     for h in handlers {
         if let Some(r) = h(item, repo, out) {
